@@ -47,39 +47,41 @@ Theorem C06_release_exact :
 Proof. exact release_exact. Qed.
 Print Assumptions C06_release_exact.
 
-(* below its limits the node accepts a connection from a peer it is not connected to *)
+(* below its limits the node accepts a connection from a peer it is not connected to (on the
+   transport that delivered it) *)
 Theorem C06_below_limit_accepts :
-  forall L m p c (lst f : bool),
+  forall L m p c t (lst f : bool),
   limit_reached (if lst then max_in L else max_out L) (if lst then ins m else outs m) = false ->
   state_of m p = Disconnected None ->
   (forall q, lookup c (pending m) = Some q -> q = p) ->
-  In (CallAccept c) (snd (do_established L m p c lst f)).
+  In (CallAccept c t) (snd (do_established L m p c t lst f)).
 Proof. exact below_limit_accepts. Qed.
 Print Assumptions C06_below_limit_accepts.
 
 (* a surplus connection is rejected without disturbing the established ones *)
 Theorem C06_reject_preserves :
-  forall L m p c (lst f : bool) q d,
-  In (CallReject c) (snd (do_established L m p c lst f)) ->
-  recorded (state_of m q) d -> recorded (state_of (fst (do_established L m p c lst f)) q) d.
+  forall L m p c t (lst f : bool) q d,
+  In (CallReject c t) (snd (do_established L m p c t lst f)) ->
+  recorded (state_of m q) d -> recorded (state_of (fst (do_established L m p c t lst f)) q) d.
 Proof. exact reject_preserves. Qed.
 Print Assumptions C06_reject_preserves.
 
-(* at the outbound limit a dial request is refused and changes nothing *)
+(* at the outbound limit a dial request (by peer, over any set of transports; by address) is
+   refused and changes nothing *)
 Theorem C06_dial_gate :
-  forall L m p f, limit_reached (max_out L) (outs m) = true ->
-  do_dial_peer L m p f = (m, [Ret RET_LIMIT]) /\ do_dial_addr L m p f = (m, [Ret RET_LIMIT]).
+  forall L m p ts fl a f, limit_reached (max_out L) (outs m) = true ->
+  do_dial_peer L m p ts fl = (m, [Ret RET_LIMIT]) /\ do_dial_shape L m a f = (m, [Ret RET_LIMIT]).
 Proof. exact dial_gate. Qed.
 Print Assumptions C06_dial_gate.
 
-(* non-vacuity: a concrete history with limits (1,1) satisfies the environment predicate, reaches
-   two connections for one peer, and a third is rejected *)
+(* non-vacuity: a concrete history with limits (3,1) over two transports satisfies the environment
+   predicate, reaches two connections for one peer (one per transport), and a third is rejected *)
 Example C06_nonvacuous :
-  let L := mkLimits (Some 3) (Some 1) in
-  let es := [CmdDialAddr 2 false; AllocConn; TrEstablished 2 1 true false; AcceptDone 1 true;
-             TrEstablished 2 0 false false; AcceptDone 0 true; AllocConn;
-             TrEstablished 2 2 true false] in
+  let L := mkLimits (Some 3) (Some 1) [TCP; WS] in
+  let es := [CmdDialAddr 2 WS false; AllocConn; TrEstablished 2 1 TCP true false; AcceptDone 1 true;
+             TrEstablished 2 0 WS false false; AcceptDone 0 true; AllocConn;
+             TrEstablished 2 2 TCP true false] in
   env_trace L init [] es /\
   map fst (snd (grun L init [] es)) = [0; 1] /\
-  snd (step L (fst (grun L init [] (removelast es))) (TrEstablished 2 2 true false)) = [CallReject 2].
+  snd (step L (fst (grun L init [] (removelast es))) (TrEstablished 2 2 TCP true false)) = [CallReject 2 TCP].
 Proof. vm_compute. repeat split; try discriminate; intros; try congruence; tauto. Qed.
